@@ -186,6 +186,26 @@ def check(run, ctx):
     (run.ok(S4, "cli _clear_dry_cache", "unlink only behind the explicit --clear-cache request", nontrivial=False) if clear else run.ok(S4, "cli _clear_dry_cache", "no write site", nontrivial=False))
     run.ok(S4, "reachability", f"{len([q for q in pr if q.startswith('src.')])} functions reachable from {len(roots)} lint roots inspected; {n_reach_write} write sites")
 
+    S11 = run.rule("S11", "the iteration order of a set of strings never becomes observable: no list(set(x)) / tuple(set(x)) / join(set(x)) / slicing or indexing of such a list without sorted()", floor=1,
+                   decides="messages and their ordering do not depend on PYTHONHASHSEED")
+    n_s11 = 0
+    for f_ in sorted(repo.funcs.values(), key=lambda x: x.qual):
+        if not f_.module.name.startswith("src.") or f_.parent is not None:
+            continue
+        for n in ast.walk(f_.node):
+            if isinstance(n, ast.Call) and (call_name(n) in ("list", "tuple", "join", "enumerate", "iter", "next")) and n.args:
+                a0 = n.args[0]
+                is_set = (isinstance(a0, ast.Call) and call_name(a0) in ("set", "frozenset") and isinstance(a0.func, ast.Name)) or isinstance(a0, (ast.Set, ast.SetComp))
+                if not is_set:
+                    continue
+                # harmless when the order is discarded again at once: sorted(list(set(x))), len(...), set(...), min/max/sum/any/all
+                par_ = next((p_ for p_ in ast.walk(f_.node) if isinstance(p_, ast.Call) and any(a_ is n for a_ in p_.args)), None)
+                if par_ is not None and call_name(par_) in ("sorted", "len", "set", "frozenset", "min", "max", "sum", "any", "all", "Counter"):
+                    continue
+                n_s11 += 1
+                run.finding(S11, f_.qual.replace("src.", "", 1), f"set-order:{norm(n)[:60]}", f"{f_.qual}: `{norm(n)[:80]}` fixes the arbitrary iteration order of a set (for strings it follows PYTHONHASHSEED): which elements are kept or how they are ordered in the output changes from run to run - wrap it in sorted()", f"{f_.module.rel}:{n.lineno}")
+    run.ok(S11, "src", f"{n_s11} unordered set materialisations found")
+
     S9 = run.rule("S9", "no SQL statement of the two stores creates a file beside the self-deleting temporary database (journal_mode WAL/PERSIST, ATTACH, VACUUM INTO)", floor=2,
                   decides="storage_mode=tempfile leaves nothing in the temp directory: NamedTemporaryFile(delete=True) removes the database file only")
     import re as _re
@@ -484,9 +504,13 @@ def _s6(run, ctx, L, S6):
                                 if _pure_memo_cg(cg, m.module.name, t, n.value) or _pure_memo_via_local(cg, m, t, n.value):
                                     continue
                                 acc.setdefault(t.value.attr, f"{m.name}:{n.lineno} [k]=")
-                            if isinstance(t, ast.Attribute) and isinstance(t.value, ast.Name) and t.value.id == "self":
-                                if not any(isinstance(x, ast.Attribute) and x.attr == t.attr and isinstance(x.value, ast.Name) and x.value.id == "self" for x in ast.walk(n.value)):
-                                    reb.add(t.attr)
+                            for t2 in (t.elts if isinstance(t, (ast.Tuple, ast.List)) else [t]):
+                                if isinstance(t2, ast.Attribute) and isinstance(t2.value, ast.Name) and t2.value.id == "self":
+                                    if not any(isinstance(x, ast.Attribute) and x.attr == t2.attr and isinstance(x.value, ast.Name) and x.value.id == "self" for x in ast.walk(n.value)):
+                                        reb.add(t2.attr)
+                                    else:
+                                        # self.a = f(self.a, ...): the new value depends on the old one - state carried from call to call
+                                        acc.setdefault(t2.attr, f"{m.name}:{n.lineno} self-dependent update")
                     if isinstance(n, ast.AugAssign) and isinstance(n.target, ast.Attribute) and isinstance(n.target.value, ast.Name) and n.target.value.id == "self":
                         acc.setdefault(n.target.attr, f"{m.name}:{n.lineno} augmented assignment")
             sym = f"{cq.replace('src.', '', 1)}.{e.name}"
